@@ -119,7 +119,22 @@ class C20(fw.Prop):
 
             def impl():
                 from dlms_cosem.time import ClockStatus
-                return "ok " + str(ClockStatus(*[bool(x) for x in bits]).to_bytes()[0])
+                from dlms_cosem import time as t
+                import datetime as pydt
+                from harness.props.c16 import ZoneWithDst, mk_dt
+                cs = ClockStatus(*[bool(x) for x in bits])
+                v = cs.to_bytes()[0]
+                out = "ok " + str(v)
+                # the same value where it lives: the last byte of a date-time, whatever kind of date-time it is written with
+                # (naive, fixed offset, a zone that is in summer time, one that is not)
+                for name, dt in (("naive", pydt.datetime(2021, 7, 1, 12, 0)), ("fixed", pydt.datetime(2021, 7, 1, 12, 0, tzinfo=pydt.timezone(pydt.timedelta(hours=2)))),
+                                 ("dst-object", pydt.datetime(2021, 7, 1, 12, 0, tzinfo=ZoneWithDst(120))),
+                                 ("summer", mk_dt([2021, 7, 1, 12, 0, 0, 0, 0], "tzstr:CET-1CEST,M3.5.0,M10.5.0/3")),
+                                 ("winter", mk_dt([2021, 1, 5, 12, 0, 0, 0, 0], "tzstr:CET-1CEST,M3.5.0,M10.5.0/3"))):
+                    got = t.datetime_to_bytes(dt, ClockStatus(*[bool(x) for x in bits]))[-1]
+                    if got != v:
+                        out += f" !in-a-{name}-date-time-written-as:{got:#04x}"
+                return out
             return fw.Case("fld clk to " + " ".join(str(x) for x in bits), impl, "prop", d, tags)
         if op == "frame_fields":
             # the two fields where they live: format word and control byte of a serialised information frame, for every
@@ -148,6 +163,26 @@ class C20(fw.Prop):
                         problems.append(f"{name}-control:{ctrl:#04x}!={want_ctrl:#04x}")
                 return "ok frame-fields" + ("" if not problems else " " + ",".join(problems))
             return fw.Case("echo frame-fields", impl, "prop", d, tags)
+        if op == "frame_range":
+            # sequence numbers outside 0..7 have no pattern: a frame cannot be made with them
+            which, v = d["which"], d["v"]
+
+            def impl():
+                from dlms_cosem.hdlc import address, frames
+                c, srv = address.HdlcAddress(16, None, "client"), address.HdlcAddress(1, 17, "server")
+                try:
+                    if which == "i-ssn":
+                        b = frames.InformationFrame(c, srv, b"\x01", send_sequence_number=v, receive_sequence_number=1).to_bytes()
+                    elif which == "i-rsn":
+                        b = frames.InformationFrame(c, srv, b"\x01", send_sequence_number=1, receive_sequence_number=v).to_bytes()
+                    else:
+                        b = frames.ReceiveReadyFrame(c, srv, receive_sequence_number=v).to_bytes()
+                except fw._Timeout:
+                    raise
+                except Exception:  # noqa
+                    return "ok frame-range"
+                return f"ok frame-range accepted-{which}={v}:{bytes(b).hex()}"
+            return fw.Case("echo frame-range", impl, "prop", d, tags)
         if op == "clk_from":
             v = d["v"]
 
@@ -251,7 +286,17 @@ class C20(fw.Prop):
             def impl():
                 from dlms_cosem.protocol.xdlms.data_notification import LongInvokeIdAndPriority as L
                 f = fresh_decode(lambda: L.from_bytes(w.to_bytes(4, "big")))
-                return f"ok {f.long_invoke_id} {b01(f.prioritized)} {b01(f.confirmed)} {b01(f.break_on_error)} {b01(f.self_descriptive)}"
+                out = f"ok {f.long_invoke_id} {b01(f.prioritized)} {b01(f.confirmed)} {b01(f.break_on_error)} {b01(f.self_descriptive)}"
+                # the same word where it lives: at the head of a data-notification (decoded there, and written back)
+                from dlms_cosem.protocol import xdlms
+                n = xdlms.DataNotification.from_bytes(b"\x0f" + w.to_bytes(4, "big") + b"\x00\x09\x01\x01")
+                g = n.long_invoke_id_and_priority
+                if (g.long_invoke_id, g.prioritized, g.confirmed, g.break_on_error, g.self_descriptive) != \
+                        (f.long_invoke_id, f.prioritized, f.confirmed, f.break_on_error, f.self_descriptive):
+                    out += f" !inside-a-data-notification-decodes-to:{g!r}"
+                if n.to_bytes()[1:5] != L.from_bytes(w.to_bytes(4, "big")).to_bytes():
+                    out += f" !inside-a-data-notification-written-back-as:{n.to_bytes()[1:5].hex()}"
+                return out
             return fw.Case(f"fld linv from {w:08x}", impl, "prop", d, tags)
         if op == "obis_to":
             o = d["o"]
@@ -292,6 +337,9 @@ class C20(fw.Prop):
 
     def cases(self, rng, tier, deep):
         mk = self.make_case
+        for which in ("i-ssn", "i-rsn", "rr-rsn"):
+            for v in (8, 9, 15, 16, 17, 255, 256, 1000, -1, -8):
+                yield mk({"op": "frame_range", "which": which, "v": v})
         for ssn in range(8):
             for rsn in range(8):
                 for fin in (0, 1):
